@@ -509,6 +509,23 @@ class Builder:
             for mm in re.finditer(r"(?<![A-Za-z0-9_])self(?![A-Za-z0-9_])", m[body[0]:body[1]]):
                 edits.append(Edit(body[0] + mm.start(), body[0] + mm.end(), [Seg("vx_self", "repo", fn=qual)]))
             self.count("R13")
+        # closures that will receive a typed header from the contract (R19 / R20 bind only those with a `let`)
+        self._typed_closures = set()
+        if c and c.closures:
+            cls0 = find_closures(m, body)
+            bym0 = {}
+            for ci in cls0:
+                bym0.setdefault(ci[5], []).append(ci)
+            for n, cs in c.closures.items():
+                if (qual, "closure %s" % n) in self.skip_pieces:
+                    continue
+                if isinstance(n, str):
+                    meth, _, idx = n.partition("#")
+                    lst0 = bym0.get(meth, [])
+                    if int(idx or 0) < len(lst0):
+                        self._typed_closures.add(lst0[int(idx or 0)][0])
+                elif n < len(cls0):
+                    self._typed_closures.add(cls0[n][0])
         edits += self.generic_rewrites(src, m, body, qual, o)
         # ---- site rewrites
         if c:
@@ -859,11 +876,36 @@ class Builder:
                     op = a + mm.end() - 1
                     cp = rs.match_close(m, op)
                     k = chain_start(m, a, a + mm.start())
-                    edits.append(Edit(k, k, [Seg("({ let vx_r = ", "repo", fn=qual)]))
-                    edits.append(Edit(a + mm.start(), a + mm.end(), [Seg("; let vx_f = ", "repo", fn=qual)]))
-                    tail = "; vx_r.vx_iter_find(vx_f) })" if mm.group(1) == "iter" else "; vx_into_iter_find(vx_r, vx_f) })"
-                    edits.append(Edit(cp, cp + 1, [Seg(tail, "repo", fn=qual)], order=5))
+                    if self._closure_is_typed(m, op, cp):
+                        edits.append(Edit(k, k, [Seg("({ let vx_r = ", "repo", fn=qual)]))
+                        edits.append(Edit(a + mm.start(), a + mm.end(), [Seg("; let vx_f = ", "repo", fn=qual)]))
+                        tail = "; vx_r.vx_iter_find(vx_f) })" if mm.group(1) == "iter" else "; vx_into_iter_find(vx_r, vx_f) })"
+                        edits.append(Edit(cp, cp + 1, [Seg(tail, "repo", fn=qual)], order=5))
+                    elif mm.group(1) == "iter":
+                        # no typed header: an inline closure keeps rustc's parameter inference (fewer facts for the proof)
+                        edits.append(Edit(a + mm.start(), a + mm.end(), [Seg(".vx_iter_find(", "repo", fn=qual)]))
+                    else:
+                        edits.append(Edit(k, k, [Seg("vx_into_iter_find(", "repo", fn=qual)]))
+                        edits.append(Edit(a + mm.start(), a + mm.end(), [Seg(", ", "repo", fn=qual)]))
                     self.count("R19")
+            if rule[0] == "R20":
+                # E.into_iter().filter(CL).collect::<Vec<_>>() -> ({ let vx_r = E; let vx_f = CL; vx_into_iter_filter_collect(vx_r, vx_f) })
+                for mm in re.finditer(r"\.\s*into_iter\s*\(\s*\)\s*\.\s*filter\s*\(", m[a:b]):
+                    op = a + mm.end() - 1
+                    cp = rs.match_close(m, op)
+                    t = re.match(r"\s*\.\s*collect\s*::\s*<\s*Vec\s*<\s*_\s*>\s*>\s*\(\s*\)", m[cp + 1:b])
+                    if not t:
+                        continue
+                    k = chain_start(m, a, a + mm.start())
+                    if self._closure_is_typed(m, op, cp):
+                        edits.append(Edit(k, k, [Seg("({ let vx_r = ", "repo", fn=qual)]))
+                        edits.append(Edit(a + mm.start(), a + mm.end(), [Seg("; let vx_f = ", "repo", fn=qual)]))
+                        edits.append(Edit(cp, cp + 1 + t.end(), [Seg("; vx_into_iter_filter_collect(vx_r, vx_f) })", "repo", fn=qual)], order=5))
+                    else:
+                        edits.append(Edit(k, k, [Seg("vx_into_iter_filter_collect(", "repo", fn=qual)]))
+                        edits.append(Edit(a + mm.start(), a + mm.end(), [Seg(", ", "repo", fn=qual)]))
+                        edits.append(Edit(cp + 1, cp + 1 + t.end(), [], order=5))
+                    self.count("R20")
             if rule[0] == "R18":
                 # `E.then(|| BODY)` -> `(if E { Some(BODY) } else { None })`  (the definition of bool::then)
                 for mm in re.finditer(r"\.\s*then\s*\(\s*\|\s*\|", m[a:b]):
@@ -895,6 +937,16 @@ class Builder:
                                           [Seg("vx_hashmap_get_mut(&mut %s, " % recv, "repo", fn=qual)]))
                         self.count("R10")
         return edits
+
+    def _closure_is_typed(self, m, op, cp):
+        """the closure that is the argument `( .. )` at op..cp gets a typed header from the contract, or has one in the source"""
+        j = op + 1
+        while j < cp and m[j] in " \t\n":
+            j += 1
+        if j in getattr(self, "_typed_closures", set()):
+            return True
+        mm = re.match(r"(?:move\s+)?\|([^|]*)\|", m[j:cp])
+        return bool(mm and ":" in mm.group(1))
 
     # ------------------------------------------------------------------ finish
     def finish(self):
